@@ -1374,184 +1374,96 @@ Require Verif.Tie.PypiRange.
 Require Verif.Tie.Rpm.
 Require Verif.Tie.RpmRange.
 Require Verif.Tie.Semver.
-Definition C20_tie_alpine_compareInt := Verif.Tie.Alpine.tie_alpine_compareInt.
-Print Assumptions C20_tie_alpine_compareInt.
-Definition C20_tie_alpine_compareLetters := Verif.Tie.Alpine.tie_alpine_compareLetters.
-Print Assumptions C20_tie_alpine_compareLetters.
-Definition C20_tie_alpine_VersionRange_String := Verif.Tie.AlpineRange.tie_alpine_VersionRange_String.
-Print Assumptions C20_tie_alpine_VersionRange_String.
-Definition C20_tie_alpine_VersionRange_Contains := Verif.Tie.AlpineRange.tie_alpine_VersionRange_Contains.
-Print Assumptions C20_tie_alpine_VersionRange_Contains.
-Definition C20_tie_alpm_compare := Verif.Tie.Alpm.tie_alpm_compare.
-Print Assumptions C20_tie_alpm_compare.
-Definition C20_tie_alpm_matches := Verif.Tie.AlpmRange.tie_alpm_matches.
-Print Assumptions C20_tie_alpm_matches.
-Definition C20_tie_alpm_matches_model := Verif.Tie.AlpmRange.tie_alpm_matches_model.
-Print Assumptions C20_tie_alpm_matches_model.
-Definition C20_tie_alpm_contains := Verif.Tie.AlpmRange.tie_alpm_contains.
-Print Assumptions C20_tie_alpm_contains.
-Definition C20_tie_apache_compareInt := Verif.Tie.Apache.tie_apache_compareInt.
-Print Assumptions C20_tie_apache_compareInt.
-Definition C20_tie_apache_getQualifierPrecedence := Verif.Tie.Apache.tie_apache_getQualifierPrecedence.
-Print Assumptions C20_tie_apache_getQualifierPrecedence.
-Definition C20_tie_apache_compare := Verif.Tie.Apache.tie_apache_compare.
-Print Assumptions C20_tie_apache_compare.
-Definition C20_tie_apache_matches := Verif.Tie.ApacheRange.tie_apache_matches.
-Print Assumptions C20_tie_apache_matches.
-Definition C20_tie_apache_matches_model := Verif.Tie.ApacheRange.tie_apache_matches_model.
-Print Assumptions C20_tie_apache_matches_model.
-Definition C20_tie_apache_contains := Verif.Tie.ApacheRange.tie_apache_contains.
-Print Assumptions C20_tie_apache_contains.
-Definition C20_tie_cargo_compareInt := Verif.Tie.Cargo.tie_cargo_compareInt.
-Print Assumptions C20_tie_cargo_compareInt.
-Definition C20_tie_cargo_compare := Verif.Tie.Cargo.tie_cargo_compare.
-Print Assumptions C20_tie_cargo_compare.
-Definition C20_tie_cargo_caret := Verif.Tie.CargoRange.tie_cargo_caret.
-Print Assumptions C20_tie_cargo_caret.
-Definition C20_tie_cargo_tilde := Verif.Tie.CargoRange.tie_cargo_tilde.
-Print Assumptions C20_tie_cargo_tilde.
-Definition C20_tie_cargo_satisfiesConstraint := Verif.Tie.CargoRange.tie_cargo_satisfiesConstraint.
-Print Assumptions C20_tie_cargo_satisfiesConstraint.
-Definition C20_tie_composer_compareInt := Verif.Tie.Composer.tie_composer_compareInt.
-Print Assumptions C20_tie_composer_compareInt.
-Definition C20_tie_composer_compare := Verif.Tie.Composer.tie_composer_compare.
-Print Assumptions C20_tie_composer_compare.
-Definition C20_tie_conan_compareInt := Verif.Tie.Conan.tie_conan_compareInt.
-Print Assumptions C20_tie_conan_compareInt.
-Definition C20_tie_conan_Version_Compare := Verif.Tie.Conan.tie_conan_Version_Compare.
-Print Assumptions C20_tie_conan_Version_Compare.
-Definition C20_tie_conan_isOperator := Verif.Tie.ConanRange.tie_conan_isOperator.
-Print Assumptions C20_tie_conan_isOperator.
-Definition C20_tie_conan_VersionRange_constraintSatisfied := Verif.Tie.ConanRange.tie_conan_VersionRange_constraintSatisfied.
-Print Assumptions C20_tie_conan_VersionRange_constraintSatisfied.
-Definition C20_tie_conan_VersionRange_constraintSatisfied_model := Verif.Tie.ConanRange.tie_conan_VersionRange_constraintSatisfied_model.
-Print Assumptions C20_tie_conan_VersionRange_constraintSatisfied_model.
-Definition C20_tie_conan_VersionRange_groupSatisfied := Verif.Tie.ConanRange.tie_conan_VersionRange_groupSatisfied.
-Print Assumptions C20_tie_conan_VersionRange_groupSatisfied.
-Definition C20_tie_conan_VersionRange_Contains := Verif.Tie.ConanRange.tie_conan_VersionRange_Contains.
-Print Assumptions C20_tie_conan_VersionRange_Contains.
-Definition C20_tie_conan_VersionRange_String := Verif.Tie.ConanRange.tie_conan_VersionRange_String.
-Print Assumptions C20_tie_conan_VersionRange_String.
-Definition C20_tie_cran_compareInt := Verif.Tie.Cran.tie_cran_compareInt.
-Print Assumptions C20_tie_cran_compareInt.
-Definition C20_tie_cran_satisfiesConstraint := Verif.Tie.CranRange.tie_cran_satisfiesConstraint.
-Print Assumptions C20_tie_cran_satisfiesConstraint.
-Definition C20_tie_cran_contains := Verif.Tie.CranRange.tie_cran_contains.
-Print Assumptions C20_tie_cran_contains.
-Definition C20_tie_cran_contains_model := Verif.Tie.CranRange.tie_cran_contains_model.
-Print Assumptions C20_tie_cran_contains_model.
-Definition C20_tie_debian_compare := Verif.Tie.Debian.tie_debian_compare.
-Print Assumptions C20_tie_debian_compare.
-Definition C20_tie_debian_satisfiesConstraint := Verif.Tie.DebianRange.tie_debian_satisfiesConstraint.
-Print Assumptions C20_tie_debian_satisfiesConstraint.
-Definition C20_tie_debian_satisfiesConstraint_model := Verif.Tie.DebianRange.tie_debian_satisfiesConstraint_model.
-Print Assumptions C20_tie_debian_satisfiesConstraint_model.
-Definition C20_tie_debian_contains := Verif.Tie.DebianRange.tie_debian_contains.
-Print Assumptions C20_tie_debian_contains.
-Definition C20_tie_gem_compareInt := Verif.Tie.Gem.tie_gem_compareInt.
-Print Assumptions C20_tie_gem_compareInt.
-Definition C20_tie_gem_compareSegments := Verif.Tie.Gem.tie_gem_compareSegments.
-Print Assumptions C20_tie_gem_compareSegments.
-Definition C20_tie_gem_VersionRange_String := Verif.Tie.GemRange.tie_gem_VersionRange_String.
-Print Assumptions C20_tie_gem_VersionRange_String.
-Definition C20_tie_gem_VersionRange_Contains := Verif.Tie.GemRange.tie_gem_VersionRange_Contains.
-Print Assumptions C20_tie_gem_VersionRange_Contains.
-Definition C20_tie_gentoo_compareInt := Verif.Tie.Gentoo.tie_gentoo_compareInt.
-Print Assumptions C20_tie_gentoo_compareInt.
-Definition C20_tie_gentoo_matches := Verif.Tie.GentooRange.tie_gentoo_matches.
-Print Assumptions C20_tie_gentoo_matches.
-Definition C20_tie_gentoo_contains := Verif.Tie.GentooRange.tie_gentoo_contains.
-Print Assumptions C20_tie_gentoo_contains.
-Definition C20_tie_gentoo_contains_model := Verif.Tie.GentooRange.tie_gentoo_contains_model.
-Print Assumptions C20_tie_gentoo_contains_model.
-Definition C20_tie_github_compareInt := Verif.Tie.Github.tie_github_compareInt.
-Print Assumptions C20_tie_github_compareInt.
-Definition C20_tie_github_getQualifierPrecedence := Verif.Tie.Github.tie_github_getQualifierPrecedence.
-Print Assumptions C20_tie_github_getQualifierPrecedence.
-Definition C20_tie_github_compareQualifiers := Verif.Tie.Github.tie_github_compareQualifiers.
-Print Assumptions C20_tie_github_compareQualifiers.
-Definition C20_tie_github_compare := Verif.Tie.Github.tie_github_compare.
-Print Assumptions C20_tie_github_compare.
-Definition C20_tie_github_matches := Verif.Tie.GithubRange.tie_github_matches.
-Print Assumptions C20_tie_github_matches.
-Definition C20_tie_github_matches_model := Verif.Tie.GithubRange.tie_github_matches_model.
-Print Assumptions C20_tie_github_matches_model.
-Definition C20_tie_github_contains := Verif.Tie.GithubRange.tie_github_contains.
-Print Assumptions C20_tie_github_contains.
-Definition C20_tie_golang_compareInt := Verif.Tie.Golang.tie_golang_compareInt.
-Print Assumptions C20_tie_golang_compareInt.
-Definition C20_tie_golang_Version_Compare := Verif.Tie.Golang.tie_golang_Version_Compare.
-Print Assumptions C20_tie_golang_Version_Compare.
-Definition C20_tie_golang_VersionRange_String := Verif.Tie.GolangRange.tie_golang_VersionRange_String.
-Print Assumptions C20_tie_golang_VersionRange_String.
-Definition C20_tie_golang_VersionRange_Contains := Verif.Tie.GolangRange.tie_golang_VersionRange_Contains.
-Print Assumptions C20_tie_golang_VersionRange_Contains.
-Definition C20_tie_hex_compareInt := Verif.Tie.Hex.tie_hex_compareInt.
-Print Assumptions C20_tie_hex_compareInt.
-Definition C20_tie_hex_compare := Verif.Tie.Hex.tie_hex_compare.
-Print Assumptions C20_tie_hex_compare.
-Definition C20_tie_hex_matches := Verif.Tie.HexRange.tie_hex_matches.
-Print Assumptions C20_tie_hex_matches.
-Definition C20_tie_hex_matches_model := Verif.Tie.HexRange.tie_hex_matches_model.
-Print Assumptions C20_tie_hex_matches_model.
-Definition C20_tie_hex_contains := Verif.Tie.HexRange.tie_hex_contains.
-Print Assumptions C20_tie_hex_contains.
-Definition C20_tie_mattermost_compareInt := Verif.Tie.Mattermost.tie_mattermost_compareInt.
-Print Assumptions C20_tie_mattermost_compareInt.
-Definition C20_tie_mattermost_getQualifierPrecedence := Verif.Tie.Mattermost.tie_mattermost_getQualifierPrecedence.
-Print Assumptions C20_tie_mattermost_getQualifierPrecedence.
-Definition C20_tie_mattermost_compare := Verif.Tie.Mattermost.tie_mattermost_compare.
-Print Assumptions C20_tie_mattermost_compare.
-Definition C20_tie_mattermost_matches := Verif.Tie.MattermostRange.tie_mattermost_matches.
-Print Assumptions C20_tie_mattermost_matches.
-Definition C20_tie_mattermost_matches_model := Verif.Tie.MattermostRange.tie_mattermost_matches_model.
-Print Assumptions C20_tie_mattermost_matches_model.
-Definition C20_tie_mattermost_contains := Verif.Tie.MattermostRange.tie_mattermost_contains.
-Print Assumptions C20_tie_mattermost_contains.
-Definition C20_tie_maven_satisfiesConstraint := Verif.Tie.MavenRange.tie_maven_satisfiesConstraint.
-Print Assumptions C20_tie_maven_satisfiesConstraint.
-Definition C20_tie_maven_contains := Verif.Tie.MavenRange.tie_maven_contains.
-Print Assumptions C20_tie_maven_contains.
-Definition C20_tie_npm_compareInt := Verif.Tie.Npm.tie_npm_compareInt.
-Print Assumptions C20_tie_npm_compareInt.
-Definition C20_tie_npm_compare := Verif.Tie.Npm.tie_npm_compare.
-Print Assumptions C20_tie_npm_compare.
-Definition C20_tie_nuget_compareInt := Verif.Tie.Nuget.tie_nuget_compareInt.
-Print Assumptions C20_tie_nuget_compareInt.
-Definition C20_tie_nuget_compare := Verif.Tie.Nuget.tie_nuget_compare.
-Print Assumptions C20_tie_nuget_compare.
-Definition C20_tie_nuget_matches := Verif.Tie.NugetRange.tie_nuget_matches.
-Print Assumptions C20_tie_nuget_matches.
-Definition C20_tie_nuget_matches_model := Verif.Tie.NugetRange.tie_nuget_matches_model.
-Print Assumptions C20_tie_nuget_matches_model.
-Definition C20_tie_nuget_contains := Verif.Tie.NugetRange.tie_nuget_contains.
-Print Assumptions C20_tie_nuget_contains.
-Definition C20_tie_pypi_compareInt := Verif.Tie.Pypi.tie_pypi_compareInt.
-Print Assumptions C20_tie_pypi_compareInt.
-Definition C20_tie_pypi_normalizePrereleaseType := Verif.Tie.Pypi.tie_pypi_normalizePrereleaseType.
-Print Assumptions C20_tie_pypi_normalizePrereleaseType.
-Definition C20_tie_pypi_comparePrereleases := Verif.Tie.Pypi.tie_pypi_comparePrereleases.
-Print Assumptions C20_tie_pypi_comparePrereleases.
-Definition C20_tie_pypi_comparePostReleases := Verif.Tie.Pypi.tie_pypi_comparePostReleases.
-Print Assumptions C20_tie_pypi_comparePostReleases.
-Definition C20_tie_pypi_compareDevReleases := Verif.Tie.Pypi.tie_pypi_compareDevReleases.
-Print Assumptions C20_tie_pypi_compareDevReleases.
-Definition C20_tie_pypi_Version_Compare := Verif.Tie.Pypi.tie_pypi_Version_Compare.
-Print Assumptions C20_tie_pypi_Version_Compare.
-Definition C20_tie_pypi_VersionRange_String := Verif.Tie.PypiRange.tie_pypi_VersionRange_String.
-Print Assumptions C20_tie_pypi_VersionRange_String.
-Definition C20_tie_pypi_VersionRange_Contains := Verif.Tie.PypiRange.tie_pypi_VersionRange_Contains.
-Print Assumptions C20_tie_pypi_VersionRange_Contains.
-Definition C20_tie_rpm_compare := Verif.Tie.Rpm.tie_rpm_compare.
-Print Assumptions C20_tie_rpm_compare.
-Definition C20_tie_rpm_satisfiesRPMConstraint := Verif.Tie.RpmRange.tie_rpm_satisfiesRPMConstraint.
-Print Assumptions C20_tie_rpm_satisfiesRPMConstraint.
-Definition C20_tie_rpm_satisfiesRPMConstraint_model := Verif.Tie.RpmRange.tie_rpm_satisfiesRPMConstraint_model.
-Print Assumptions C20_tie_rpm_satisfiesRPMConstraint_model.
-Definition C20_tie_rpm_contains := Verif.Tie.RpmRange.tie_rpm_contains.
-Print Assumptions C20_tie_rpm_contains.
-Definition C20_tie_semver_compareInt := Verif.Tie.Semver.tie_semver_compareInt.
-Print Assumptions C20_tie_semver_compareInt.
-Definition C20_tie_semver_compare := Verif.Tie.Semver.tie_semver_compare.
-Print Assumptions C20_tie_semver_compare.
+Definition C20_tie_alpine_compareInt := @Verif.Tie.Alpine.tie_alpine_compareInt.
+Definition C20_tie_alpine_compareLetters := @Verif.Tie.Alpine.tie_alpine_compareLetters.
+Definition C20_tie_alpine_VersionRange_String := @Verif.Tie.AlpineRange.tie_alpine_VersionRange_String.
+Definition C20_tie_alpine_VersionRange_Contains := @Verif.Tie.AlpineRange.tie_alpine_VersionRange_Contains.
+Definition C20_tie_alpm_compare := @Verif.Tie.Alpm.tie_alpm_compare.
+Definition C20_tie_alpm_matches := @Verif.Tie.AlpmRange.tie_alpm_matches.
+Definition C20_tie_alpm_matches_model := @Verif.Tie.AlpmRange.tie_alpm_matches_model.
+Definition C20_tie_alpm_contains := @Verif.Tie.AlpmRange.tie_alpm_contains.
+Definition C20_tie_apache_compareInt := @Verif.Tie.Apache.tie_apache_compareInt.
+Definition C20_tie_apache_getQualifierPrecedence := @Verif.Tie.Apache.tie_apache_getQualifierPrecedence.
+Definition C20_tie_apache_compare := @Verif.Tie.Apache.tie_apache_compare.
+Definition C20_tie_apache_matches := @Verif.Tie.ApacheRange.tie_apache_matches.
+Definition C20_tie_apache_matches_model := @Verif.Tie.ApacheRange.tie_apache_matches_model.
+Definition C20_tie_apache_contains := @Verif.Tie.ApacheRange.tie_apache_contains.
+Definition C20_tie_cargo_compareInt := @Verif.Tie.Cargo.tie_cargo_compareInt.
+Definition C20_tie_cargo_compare := @Verif.Tie.Cargo.tie_cargo_compare.
+Definition C20_tie_cargo_caret := @Verif.Tie.CargoRange.tie_cargo_caret.
+Definition C20_tie_cargo_tilde := @Verif.Tie.CargoRange.tie_cargo_tilde.
+Definition C20_tie_cargo_satisfiesConstraint := @Verif.Tie.CargoRange.tie_cargo_satisfiesConstraint.
+Definition C20_tie_composer_compareInt := @Verif.Tie.Composer.tie_composer_compareInt.
+Definition C20_tie_composer_compare := @Verif.Tie.Composer.tie_composer_compare.
+Definition C20_tie_conan_compareInt := @Verif.Tie.Conan.tie_conan_compareInt.
+Definition C20_tie_conan_Version_Compare := @Verif.Tie.Conan.tie_conan_Version_Compare.
+Definition C20_tie_conan_isOperator := @Verif.Tie.ConanRange.tie_conan_isOperator.
+Definition C20_tie_conan_VersionRange_constraintSatisfied := @Verif.Tie.ConanRange.tie_conan_VersionRange_constraintSatisfied.
+Definition C20_tie_conan_VersionRange_constraintSatisfied_model := @Verif.Tie.ConanRange.tie_conan_VersionRange_constraintSatisfied_model.
+Definition C20_tie_conan_VersionRange_groupSatisfied := @Verif.Tie.ConanRange.tie_conan_VersionRange_groupSatisfied.
+Definition C20_tie_conan_VersionRange_Contains := @Verif.Tie.ConanRange.tie_conan_VersionRange_Contains.
+Definition C20_tie_conan_VersionRange_String := @Verif.Tie.ConanRange.tie_conan_VersionRange_String.
+Definition C20_tie_cran_compareInt := @Verif.Tie.Cran.tie_cran_compareInt.
+Definition C20_tie_cran_satisfiesConstraint := @Verif.Tie.CranRange.tie_cran_satisfiesConstraint.
+Definition C20_tie_cran_contains := @Verif.Tie.CranRange.tie_cran_contains.
+Definition C20_tie_cran_contains_model := @Verif.Tie.CranRange.tie_cran_contains_model.
+Definition C20_tie_debian_compare := @Verif.Tie.Debian.tie_debian_compare.
+Definition C20_tie_debian_satisfiesConstraint := @Verif.Tie.DebianRange.tie_debian_satisfiesConstraint.
+Definition C20_tie_debian_satisfiesConstraint_model := @Verif.Tie.DebianRange.tie_debian_satisfiesConstraint_model.
+Definition C20_tie_debian_contains := @Verif.Tie.DebianRange.tie_debian_contains.
+Definition C20_tie_gem_compareInt := @Verif.Tie.Gem.tie_gem_compareInt.
+Definition C20_tie_gem_compareSegments := @Verif.Tie.Gem.tie_gem_compareSegments.
+Definition C20_tie_gem_VersionRange_String := @Verif.Tie.GemRange.tie_gem_VersionRange_String.
+Definition C20_tie_gem_VersionRange_Contains := @Verif.Tie.GemRange.tie_gem_VersionRange_Contains.
+Definition C20_tie_gentoo_compareInt := @Verif.Tie.Gentoo.tie_gentoo_compareInt.
+Definition C20_tie_gentoo_matches := @Verif.Tie.GentooRange.tie_gentoo_matches.
+Definition C20_tie_gentoo_contains := @Verif.Tie.GentooRange.tie_gentoo_contains.
+Definition C20_tie_gentoo_contains_model := @Verif.Tie.GentooRange.tie_gentoo_contains_model.
+Definition C20_tie_github_compareInt := @Verif.Tie.Github.tie_github_compareInt.
+Definition C20_tie_github_getQualifierPrecedence := @Verif.Tie.Github.tie_github_getQualifierPrecedence.
+Definition C20_tie_github_compareQualifiers := @Verif.Tie.Github.tie_github_compareQualifiers.
+Definition C20_tie_github_compare := @Verif.Tie.Github.tie_github_compare.
+Definition C20_tie_github_matches := @Verif.Tie.GithubRange.tie_github_matches.
+Definition C20_tie_github_matches_model := @Verif.Tie.GithubRange.tie_github_matches_model.
+Definition C20_tie_github_contains := @Verif.Tie.GithubRange.tie_github_contains.
+Definition C20_tie_golang_compareInt := @Verif.Tie.Golang.tie_golang_compareInt.
+Definition C20_tie_golang_Version_Compare := @Verif.Tie.Golang.tie_golang_Version_Compare.
+Definition C20_tie_golang_VersionRange_String := @Verif.Tie.GolangRange.tie_golang_VersionRange_String.
+Definition C20_tie_golang_VersionRange_Contains := @Verif.Tie.GolangRange.tie_golang_VersionRange_Contains.
+Definition C20_tie_hex_compareInt := @Verif.Tie.Hex.tie_hex_compareInt.
+Definition C20_tie_hex_compare := @Verif.Tie.Hex.tie_hex_compare.
+Definition C20_tie_hex_matches := @Verif.Tie.HexRange.tie_hex_matches.
+Definition C20_tie_hex_matches_model := @Verif.Tie.HexRange.tie_hex_matches_model.
+Definition C20_tie_hex_contains := @Verif.Tie.HexRange.tie_hex_contains.
+Definition C20_tie_mattermost_compareInt := @Verif.Tie.Mattermost.tie_mattermost_compareInt.
+Definition C20_tie_mattermost_getQualifierPrecedence := @Verif.Tie.Mattermost.tie_mattermost_getQualifierPrecedence.
+Definition C20_tie_mattermost_compare := @Verif.Tie.Mattermost.tie_mattermost_compare.
+Definition C20_tie_mattermost_matches := @Verif.Tie.MattermostRange.tie_mattermost_matches.
+Definition C20_tie_mattermost_matches_model := @Verif.Tie.MattermostRange.tie_mattermost_matches_model.
+Definition C20_tie_mattermost_contains := @Verif.Tie.MattermostRange.tie_mattermost_contains.
+Definition C20_tie_maven_satisfiesConstraint := @Verif.Tie.MavenRange.tie_maven_satisfiesConstraint.
+Definition C20_tie_maven_contains := @Verif.Tie.MavenRange.tie_maven_contains.
+Definition C20_tie_npm_compareInt := @Verif.Tie.Npm.tie_npm_compareInt.
+Definition C20_tie_npm_compare := @Verif.Tie.Npm.tie_npm_compare.
+Definition C20_tie_nuget_compareInt := @Verif.Tie.Nuget.tie_nuget_compareInt.
+Definition C20_tie_nuget_compare := @Verif.Tie.Nuget.tie_nuget_compare.
+Definition C20_tie_nuget_matches := @Verif.Tie.NugetRange.tie_nuget_matches.
+Definition C20_tie_nuget_matches_model := @Verif.Tie.NugetRange.tie_nuget_matches_model.
+Definition C20_tie_nuget_contains := @Verif.Tie.NugetRange.tie_nuget_contains.
+Definition C20_tie_pypi_compareInt := @Verif.Tie.Pypi.tie_pypi_compareInt.
+Definition C20_tie_pypi_normalizePrereleaseType := @Verif.Tie.Pypi.tie_pypi_normalizePrereleaseType.
+Definition C20_tie_pypi_comparePrereleases := @Verif.Tie.Pypi.tie_pypi_comparePrereleases.
+Definition C20_tie_pypi_comparePostReleases := @Verif.Tie.Pypi.tie_pypi_comparePostReleases.
+Definition C20_tie_pypi_compareDevReleases := @Verif.Tie.Pypi.tie_pypi_compareDevReleases.
+Definition C20_tie_pypi_Version_Compare := @Verif.Tie.Pypi.tie_pypi_Version_Compare.
+Definition C20_tie_pypi_VersionRange_String := @Verif.Tie.PypiRange.tie_pypi_VersionRange_String.
+Definition C20_tie_pypi_VersionRange_Contains := @Verif.Tie.PypiRange.tie_pypi_VersionRange_Contains.
+Definition C20_tie_rpm_compare := @Verif.Tie.Rpm.tie_rpm_compare.
+Definition C20_tie_rpm_satisfiesRPMConstraint := @Verif.Tie.RpmRange.tie_rpm_satisfiesRPMConstraint.
+Definition C20_tie_rpm_satisfiesRPMConstraint_model := @Verif.Tie.RpmRange.tie_rpm_satisfiesRPMConstraint_model.
+Definition C20_tie_rpm_contains := @Verif.Tie.RpmRange.tie_rpm_contains.
+Definition C20_tie_semver_compareInt := @Verif.Tie.Semver.tie_semver_compareInt.
+Definition C20_tie_semver_compare := @Verif.Tie.Semver.tie_semver_compare.
+Definition C20_ties_all := (C20_tie_alpine_VersionRange_Contains, (C20_tie_alpine_VersionRange_String, (C20_tie_alpine_compareInt, (C20_tie_alpine_compareLetters, (C20_tie_alpm_compare, (C20_tie_alpm_contains, (C20_tie_alpm_matches, (C20_tie_alpm_matches_model, (C20_tie_apache_compare, (C20_tie_apache_compareInt, (C20_tie_apache_contains, (C20_tie_apache_getQualifierPrecedence, (C20_tie_apache_matches, (C20_tie_apache_matches_model, (C20_tie_cargo_caret, (C20_tie_cargo_compare, (C20_tie_cargo_compareInt, (C20_tie_cargo_satisfiesConstraint, (C20_tie_cargo_tilde, (C20_tie_composer_compare, (C20_tie_composer_compareInt, (C20_tie_conan_VersionRange_Contains, (C20_tie_conan_VersionRange_String, (C20_tie_conan_VersionRange_constraintSatisfied, (C20_tie_conan_VersionRange_constraintSatisfied_model, (C20_tie_conan_VersionRange_groupSatisfied, (C20_tie_conan_Version_Compare, (C20_tie_conan_compareInt, (C20_tie_conan_isOperator, (C20_tie_cran_compareInt, (C20_tie_cran_contains, (C20_tie_cran_contains_model, (C20_tie_cran_satisfiesConstraint, (C20_tie_debian_compare, (C20_tie_debian_contains, (C20_tie_debian_satisfiesConstraint, (C20_tie_debian_satisfiesConstraint_model, (C20_tie_gem_VersionRange_Contains, (C20_tie_gem_VersionRange_String, (C20_tie_gem_compareInt, (C20_tie_gem_compareSegments, (C20_tie_gentoo_compareInt, (C20_tie_gentoo_contains, (C20_tie_gentoo_contains_model, (C20_tie_gentoo_matches, (C20_tie_github_compare, (C20_tie_github_compareInt, (C20_tie_github_compareQualifiers, (C20_tie_github_contains, (C20_tie_github_getQualifierPrecedence, (C20_tie_github_matches, (C20_tie_github_matches_model, (C20_tie_golang_VersionRange_Contains, (C20_tie_golang_VersionRange_String, (C20_tie_golang_Version_Compare, (C20_tie_golang_compareInt, (C20_tie_hex_compare, (C20_tie_hex_compareInt, (C20_tie_hex_contains, (C20_tie_hex_matches, (C20_tie_hex_matches_model, (C20_tie_mattermost_compare, (C20_tie_mattermost_compareInt, (C20_tie_mattermost_contains, (C20_tie_mattermost_getQualifierPrecedence, (C20_tie_mattermost_matches, (C20_tie_mattermost_matches_model, (C20_tie_maven_contains, (C20_tie_maven_satisfiesConstraint, (C20_tie_npm_compare, (C20_tie_npm_compareInt, (C20_tie_nuget_compare, (C20_tie_nuget_compareInt, (C20_tie_nuget_contains, (C20_tie_nuget_matches, (C20_tie_nuget_matches_model, (C20_tie_pypi_VersionRange_Contains, (C20_tie_pypi_VersionRange_String, (C20_tie_pypi_Version_Compare, (C20_tie_pypi_compareDevReleases, (C20_tie_pypi_compareInt, (C20_tie_pypi_comparePostReleases, (C20_tie_pypi_comparePrereleases, (C20_tie_pypi_normalizePrereleaseType, (C20_tie_rpm_compare, (C20_tie_rpm_contains, (C20_tie_rpm_satisfiesRPMConstraint, (C20_tie_rpm_satisfiesRPMConstraint_model, (C20_tie_semver_compare, C20_tie_semver_compareInt))))))))))))))))))))))))))))))))))))))))))))))))))))))))))))))))))))))))))))))))))))))))).
+Print Assumptions C20_ties_all.
 (* ====== ties to the source: END ====== *)
